@@ -160,7 +160,7 @@ func (c *c31Run) hsInflight() []*vnPacket {
 
 // c31Scenario runs one schedule. choose(n) picks which of n in-flight handshake messages to deliver (or -1: let time pass).
 // It returns the number of options seen at each scheduled step (for the DFS enumerator).
-func c31Scenario(t *testing.T, r *verifkit.Reporter, label string, aLow bool, stagger time.Duration, depth int, choose func(step, n int) (idx int, dup, drop bool), rehandshake bool) (options []int) {
+func c31Scenario(t *testing.T, r *verifkit.Reporter, label string, aLow bool, stagger time.Duration, depth int, choose func(step, n int) (idx int, dup, drop bool), rehandshake bool, traffic func(sec int) bool) (options []int) {
 	vnRunBubble(t, func(t *testing.T) {
 		ca := vnNewCA(cert.Version2, cert.Curve_CURVE25519)
 		nw := vnNewNet(t)
@@ -214,6 +214,21 @@ func c31Scenario(t *testing.T, r *verifkit.Reporter, label string, aLow bool, st
 			}
 			options = append(options, len(hs))
 			idx, dup, drop := choose(step, len(hs))
+			if idx == -2 {
+				// a handshake message is held back for several check intervals while whatever tunnel exists carries
+				// traffic (late completion): the connection managers tick, test and mark tunnels in the meantime
+				c.trace = append(c.trace, "hold handshake messages for 3..7 s with traffic")
+				n := 3 + (step+len(c.trace))%5
+				for k := 0; k < n; k++ {
+					if c.completePair() {
+						c.probe()
+					}
+					nw.Advance(time.Second)
+					c.observe()
+					c.deliverData()
+				}
+				continue
+			}
 			if idx < 0 {
 				nw.Advance(150 * time.Millisecond)
 				c.observe()
@@ -263,9 +278,13 @@ func c31Scenario(t *testing.T, r *verifkit.Reporter, label string, aLow bool, st
 			c.observe()
 			nw.Flush()
 			c.observe()
-			c.probe()
-			nw.Flush()
-			c.observe()
+			// traffic in some seconds, silence in others (a swap followed by a silent check interval is a schedule too);
+			// the last two seconds always carry traffic so that a working tunnel is in use before the quiet period
+			if i >= 6 || traffic == nil || traffic(i) {
+				c.probe()
+				nw.Flush()
+				c.observe()
+			}
 		}
 		// quiet period: no traffic, let the managers retire what is left
 		for i := 0; i < 12; i++ {
@@ -324,7 +343,7 @@ func TestVerifC31Orders(t *testing.T) {
 						return cur[step], false, false
 					}
 					return 0, false, false
-				}, false)
+				}, false, nil)
 				if os.Getenv("VERIF_C31_FIRST") != "" {
 					return
 				}
@@ -368,7 +387,173 @@ func TestVerifC31Random(t *testing.T) {
 			if rng.IntN(6) == 0 {
 				return -1, false, false
 			}
+			if rng.IntN(7) == 0 {
+				return -2, false, false
+			}
 			return rng.IntN(n), rng.IntN(5) == 0, rng.IntN(7) == 0
-		}, reh)
+		}, reh, func(int) bool { return rng.IntN(2) == 0 })
 	}
+}
+
+// c31Finish runs the common end game (light traffic, quiet period) and the final oracles.
+func (c *c31Run) finish(label string, class string) {
+	r, nw, a, b := c.r, c.nw, c.a, c.b
+	for i := 0; i < 4; i++ {
+		nw.Advance(time.Second)
+		c.observe()
+		nw.Flush()
+		c.observe()
+		c.probe()
+		nw.Flush()
+		c.observe()
+	}
+	for i := 0; i < 12; i++ {
+		nw.Advance(time.Second)
+		c.observe()
+		nw.Flush()
+		c.observe()
+	}
+	pa, ia := c.tunnelsFor(a)
+	pb, ib := c.tunnelsFor(b)
+	r.DistinctClass(fmt.Sprintf("%s swaps(a,b)=(%d,%d) final tunnels (a,b)=(%d,%d)", class, c.swaps["a"], c.swaps["b"], len(ia), len(ib)))
+	r.Distinct(label)
+	if c.swaps["a"] > 0 && c.swaps["b"] > 0 {
+		r.Violation("C31/both-nodes-swapped-primary", fmt.Sprintf("schedule %s: both nodes re-promoted an older tunnel (a %d times, b %d times)", label, c.swaps["a"], c.swaps["b"]), c.rec(nil))
+	}
+	if len(ia) != 1 || len(ib) != 1 {
+		r.Violation("C31/not-converged-to-single-tunnel", fmt.Sprintf("schedule %s: after the quiet period a holds %d and b holds %d tunnels", label, len(ia), len(ib)), c.rec(nil))
+		return
+	}
+	ha, hb := a.F.hostMap.QueryIndex(pa), b.F.hostMap.QueryIndex(pb)
+	if ha == nil || hb == nil || ha.remoteIndexId != hb.localIndexId || hb.remoteIndexId != ha.localIndexId {
+		r.Violation("C31/final-tunnel-indexes-do-not-match", fmt.Sprintf("schedule %s: a{local %d remote %d} b{local %d remote %d}", label, ha.localIndexId, ha.remoteIndexId, hb.localIndexId, hb.remoteIndexId), c.rec(nil))
+		return
+	}
+	ab, ba := c.probe()
+	if !ab || !ba {
+		r.Violation("C31/final-tunnel-does-not-carry-traffic", fmt.Sprintf("schedule %s: after convergence a->b=%v b->a=%v", label, ab, ba), c.rec(nil))
+	}
+	r.Count("schedules_converged", 1)
+}
+
+// TestVerifC31Late enumerates the "late completion" family: both sides start at once, both first messages are
+// delivered, one side's reply is delivered at once and the other reply is held back (retransmissions dropped) for a
+// time around the check / pending-deletion intervals, with or without traffic on the completed tunnel; then the held
+// reply is delivered, the late side sends a few packets, and the network falls silent for 0..3 check intervals.
+func TestVerifC31Late(t *testing.T) {
+	r := verifkit.NewReporter(t, "C31", "late",
+		"directed family, complete product of: lower-address side (2) x which side's reply is held (2) x hold time {1.5,2.5,3.5,4.5 s} x traffic during the hold (2) x packets sent by the late side after completion {0,1,3} x silent check intervals afterwards {0,1,2,3}; distinct = schedules")
+	defer r.Done()
+	n := 0
+	for _, aLow := range []bool{true, false} {
+		for _, holdB := range []bool{true, false} {
+			for _, hold := range []time.Duration{1500 * time.Millisecond, 2500 * time.Millisecond, 3500 * time.Millisecond, 4500 * time.Millisecond} {
+				for _, traffic := range []bool{true, false} {
+					for _, late := range []int{0, 1, 3} {
+						for _, silent := range []int{0, 1, 2, 3} {
+							n++
+							if !verifkit.Mine(n) {
+								continue
+							}
+							label := fmt.Sprintf("late aLow=%v heldReplyFor=%s hold=%s trafficDuringHold=%v latePackets=%d silentIntervals=%d", aLow, map[bool]string{true: "b", false: "a"}[holdB], hold, traffic, late, silent)
+							vnRunBubble(t, func(t *testing.T) {
+								ca := vnNewCA(cert.Version2, cert.Curve_CURVE25519)
+								nw := vnNewNet(t)
+								aAddr, bAddr := "10.1.0.1/16", "10.1.0.2/16"
+								if !aLow {
+									aAddr, bAddr = bAddr, aAddr
+								}
+								ida := ca.issue([]cert.Version{cert.Version2}, "a", aAddr, "", nil)
+								idb := ca.issue([]cert.Version{cert.Version2}, "b", bAddr, "", nil)
+								a := nw.AddNode(ida, []*vnCA{ca}, "192.0.2.1:4242", m{"static_host_map": m{idb.Addr().String(): []string{"192.0.2.2:4242"}}})
+								b := nw.AddNode(idb, []*vnCA{ca}, "192.0.2.2:4242", m{"static_host_map": m{ida.Addr().String(): []string{"192.0.2.1:4242"}}})
+								a.Start()
+								b.Start()
+								nw.Settle()
+								defer nw.StopAll()
+								c := &c31Run{r: r, label: label, nw: nw, a: a, b: b, swaps: map[string]int{}, lastPrim: map[string]uint32{}, lastIdx: map[string]map[uint32]bool{}}
+								p0, _ := vnUDP4(a.Ident.Addr(), b.Ident.Addr(), 1, 1, 0)
+								nw.TunSend(a, p0)
+								p1, _ := vnUDP4(b.Ident.Addr(), a.Ident.Addr(), 2, 2, 0)
+								nw.TunSend(b, p1)
+								for w := 0; w < 20 && len(c.hsInflight()) < 2; w++ {
+									nw.Advance(100 * time.Millisecond)
+								}
+								// deliver both first messages
+								for _, p := range c.hsInflight() {
+									if p.H.MessageCounter == 1 {
+										nw.Deliver(p)
+										c.observe()
+										r.Eval(1)
+									}
+								}
+								// deliver one reply, hold the other
+								var held *vnPacket
+								heldTo := a
+								if holdB {
+									heldTo = b
+								}
+								for _, p := range c.hsInflight() {
+									if p.H.MessageCounter != 2 {
+										nw.Remove(p)
+										continue
+									}
+									if nw.byAddr[p.To] == heldTo && held == nil {
+										held = p
+										nw.Remove(p)
+										continue
+									}
+									nw.Deliver(p)
+									c.observe()
+									r.Eval(1)
+								}
+								if held == nil {
+									r.Inconclusive("late: no reply to hold in " + label)
+									return
+								}
+								c.trace = append(c.trace, fmt.Sprintf("reply to %s held for %s", heldTo.Name, hold))
+								c.deliverData()
+								// the hold: handshake retransmissions are dropped, data flows if asked
+								for el := time.Duration(0); el < hold; el += 500 * time.Millisecond {
+									nw.Advance(500 * time.Millisecond)
+									c.observe()
+									for _, p := range c.hsInflight() {
+										nw.Remove(p)
+									}
+									if traffic {
+										c.probe()
+									} else {
+										c.deliverData()
+									}
+								}
+								nw.Deliver(held)
+								c.observe()
+								r.Eval(1)
+								c.deliverData()
+								for k := 0; k < late; k++ {
+									pk, _ := vnUDP4(heldTo.Ident.Addr(), c.peerOf(heldTo).Ident.Addr(), 3, 3, 0)
+									nw.TunSend(heldTo, pk)
+									c.deliverData()
+								}
+								for k := 0; k < silent*2; k++ {
+									nw.Advance(time.Second)
+									c.observe()
+									for _, p := range c.hsInflight() {
+										nw.Deliver(p)
+									}
+									c.deliverData()
+								}
+								c.finish(label, fmt.Sprintf("late held=%s hold=%s traffic=%v", heldTo.Name, hold, traffic))
+								if r.WantSample() {
+									r.Sample(map[string]any{"schedule": label, "trace": c.trace, "swaps": c.swaps})
+								}
+							})
+						}
+					}
+				}
+			}
+		}
+	}
+	r.Exhaustive("late-completion family: complete product of the six listed factors")
+	r.Info("late_schedules", n)
 }
